@@ -388,7 +388,8 @@ func positives(c *driver.Ctx, sec string) {
 		P string              `yaml:"p"`
 	}
 	yb, _ := yaml3.Marshal(map[string]string{"s": sec, "p": sec})
-	if err := yaml3.Unmarshal(yb, &viaYAML); err != nil || string(viaYAML.S) != viaYAML.P {
+	// (a document yaml.v3 cannot read back at all — e.g. a leading tab — says nothing about the opaque type)
+	if err := yaml3.Unmarshal(yb, &viaYAML); err == nil && string(viaYAML.S) != viaYAML.P {
 		c.Violation("unmarshal", "yaml.v3 stored something else in the opaque field than in a plain string field", map[string]any{"secret": sec, "got": string(viaYAML.S), "plain": viaYAML.P, "err": fmt.Sprint(err)}, "path", "yaml.Unmarshal")
 	}
 	// the rendering must not depend on what an earlier caller did with the bytes it was handed
